@@ -16,7 +16,7 @@ pub fn single_point<S: Sch>(rec: &mut Rec, keys: &Keys<S>, id: &str, poly: LP<S>
     rec.op(3);
     let hb = poly.hiding_bound();
     let db = poly.degree_bound();
-    let what = format!("shape={}{}{}", shape.split('(').next().unwrap(), if db.is_some() { "+bound" } else { "" }, if hb.is_some() { "+hiding" } else { "" });
+    let what = format!("shape={}{}{}", shape.split(|c| c == '(' || c == '[').next().unwrap(), if db.is_some() { "+bound" } else { "" }, if hb.is_some() { "+hiding" } else { "" });
     let c = match commit_set::<S>(keys, vec![poly], rec.seed, seed_k) {
         Ok(c) => c,
         Err(o) => {
